@@ -23,7 +23,11 @@ def ql(xs):
 
 def obs_fn(c):
     # scalar and array-valued observable of the coordinates
-    return {"a": np.sum(np.cos(c[:, :, 0]) + 0.3 * c[:, :, 1], axis=1), "v": np.stack([np.sum(c[:, :, 2] ** 2, axis=1), np.sin(c[:, 0, 0])], axis=1)}
+    a = np.sum(np.cos(c[:, :, 0]) + 0.3 * c[:, :, 1], axis=1)
+    v = np.stack([np.sum(c[:, :, 2] ** 2, axis=1), np.sin(c[:, 0, 0])], axis=1)
+    # a rectangular, non-symmetric matrix-valued observable (like a density matrix block)
+    m = np.stack([np.stack([np.cos((i + 1) * c[:, 0, 0] + j * c[:, 0, 1]) for j in range(3)], axis=1) for i in range(2)], axis=1)
+    return {"a": a, "v": v, "m": m}
 
 
 def en_fn(c):
@@ -41,7 +45,17 @@ def components(vals):
     v = np.asarray(vals)
     if v.ndim == 1:
         return [("", v)]
-    return [("[%d]" % j, v[:, j]) for j in range(v.shape[1])]
+    return [(str(list(idx)), v[(slice(None),) + idx]) for idx in np.ndindex(v.shape[1:])]
+
+
+def pick(arr, suf):
+    arr = np.asarray(arr)
+    if suf == "":
+        return float(arr)
+    idx = tuple(json.loads(suf))
+    if arr.ndim != len(idx) or any(i >= n for i, n in zip(idx, arr.shape)):
+        return float("nan")
+    return float(arr[idx])
 
 
 def fmean(xs):
@@ -76,7 +90,7 @@ def check_vmc(ck):
         cfg = make_configs(ck.rng, nconf, nelec, periodic)
         wf = GaussWF(alpha=0.8)
         log = []
-        acc = {"o": RecAcc(obs_fn, {"a": (), "v": (2,)}, log)}
+        acc = {"o": RecAcc(obs_fn, {"a": (), "v": (2,), "m": (2, 3)}, log)}
         seed_np(ck)
         inp = {"nconf": nconf, "nelec": nelec, "nsteps": nsteps, "npartitions": npart if parallel else None, "periodic": periodic}
         if parallel:
@@ -93,7 +107,7 @@ def check_vmc(ck):
         sizes = [log[[l["task"] for l in log].index(t)]["vals"]["a"].shape[0] for t in tasks]
         if parallel and (len(tasks) != npart or sum(sizes) != nconf or max(sizes) - min(sizes) > 1):
             ck.violation("vmc_partition", S_VMC, inp, expected="npartitions tasks of floor/ceil(nconf/npartitions) walkers", got=sizes)
-        for key in ("a", "v"):
+        for key in ("a", "v", "m"):
             comps = {}
             for l in log:
                 for suf, arr in components(l["vals"][key]):
@@ -101,9 +115,8 @@ def check_vmc(ck):
             for suf, bytask in comps.items():
                 allvals = [x for t in tasks for step in bytask[t] for x in step]
                 exact = fmean(allvals) if allvals else None
-                got = np.asarray(block["o" + key])
-                got = float(got) if suf == "" else float(got[int(suf[1:-1])])
-                if abs(got - float(exact)) > 1e-11 * max(1.0, abs(float(exact))):
+                got = pick(block["o" + key], suf)
+                if not abs(got - float(exact)) <= 1e-11 * max(1.0, abs(float(exact))):
                     ck.violation("vmc_average_not_plain_mean", S_VMC, dict(inp, key=key + suf), expected=float(exact), got=got,
                                  oracle="exact rational mean over all steps and all walkers of the logged per-walker values")
                 parts = coq_list([coq_list([ql(step) for step in bytask[t]]) for t in tasks])
@@ -147,7 +160,7 @@ def check_dmc(ck):
         cfg = make_configs(ck.rng, nconf, nelec, periodic)
         wf = GaussWF(alpha=0.9)
         elog, plog = [], []
-        acc = {"energy": RecAcc(en_fn, {"total": (), "ke": ()}, elog), "p": RecAcc(obs_fn, {"a": (), "v": (2,)}, plog)}
+        acc = {"energy": RecAcc(en_fn, {"total": (), "ke": ()}, elog), "p": RecAcc(obs_fn, {"a": (), "v": (2,), "m": (2, 3)}, plog)}
         w0 = ck.rng.uniform(0.2, 3.0, size=nconf)
         if it % 5 == 0:
             w0[:] = 1.0
@@ -164,7 +177,7 @@ def check_dmc(ck):
         block, cfg2, wfinal = res
         tasks = sorted(set(l["task"] for l in plog))
         # per task, per step: weights (after the step's update) and per-walker values
-        for key, src, pre in (("total", "e", "energy"), ("a", "p", "p"), ("v", "p", "p")):
+        for key, src, pre in (("total", "e", "energy"), ("a", "p", "p"), ("v", "p", "p"), ("m", "p", "p")):
             comps = {}
             for t in tasks:
                 psteps = [l for l in plog if l["task"] == t]
@@ -184,9 +197,8 @@ def check_dmc(ck):
                 den = sum(frac(w) for t in tasks for step in bytask[t] for (w, o) in step)
                 nw = sum(len(bytask[t][0]) for t in tasks)
                 ex_val, ex_w = num / den, den / (nsteps * nw)
-                got = np.asarray(block[pre + key])
-                got = float(got) if suf == "" else float(got[int(suf[1:-1])])
-                if abs(got - float(ex_val)) > 1e-11 * max(1.0, abs(float(ex_val))):
+                got = pick(block[pre + key], suf)
+                if not abs(got - float(ex_val)) <= 1e-11 * max(1.0, abs(float(ex_val))):
                     ck.violation("dmc_average_not_weighted_mean", S_DMC, dict(inp, key=key + suf), expected=float(ex_val), got=got,
                                  oracle="exact rational sum_t sum_i w o / sum_t sum_i w over the logged weights and values")
                 if abs(float(block["weight"]) - float(ex_w)) > 1e-11 * max(1.0, float(ex_w)):
